@@ -38,42 +38,44 @@ const (
 // Features is the ordered list of features Compose understands.  The order is also the order
 // in which the features contribute relationships and body content.
 var Features = []string{
-	"ns-default",     // main part uses the default namespace for elements (attributes keep a prefix)
-	"ns-x",           // main part uses the prefix x: instead of w:
-	"styles",         // word/styles.xml with its own style ids
-	"theme",          // word/theme/theme1.xml
-	"fontTable",      // word/fontTable.xml
-	"settings",       // word/settings.xml
-	"webSettings",    // word/webSettings.xml
-	"customXml",      // customXml/item1.xml + itemProps1.xml + customXml/_rels/item1.xml.rels
-	"numbering",      // word/numbering.xml (abstractNum 7 / num 3) + a list paragraph using num 3
-	"footnotes",      // word/footnotes.xml with footnote 2 + a reference in the body
-	"hdr-default",    // default header in word/header1.xml with its own .rels and media
-	"hdr-first",      // FIRST-page header stored in word/header1.xml (w:titlePg), no default header
-	"ftr-default",    // default footer in word/footer1.xml with its own .rels and media
-	"docProps",       // docProps/core.xml + docProps/app.xml with root relationships
-	"ext-hyperlink",  // TargetMode="External" hyperlink relationship + w:hyperlink with runs
-	"smartTag",       // runs inside w:smartTag
-	"ins",            // runs inside w:ins (tracked insertion)
-	"sdt-inline",     // runs inside w:sdt/w:sdtContent within a paragraph
-	"sdt-block",      // a paragraph inside a body-level w:sdt/w:sdtContent
-	"fldSimple",      // runs inside w:fldSimple
-	"run-multi-t",    // one run carrying w:t, w:tab, w:t
-	"media-IMAGE5",   // body picture stored as word/media/IMAGE5.PNG
-	"media-Image0",   // body picture stored as word/media/Image0.png
-	"media-picture",  // body picture stored as word/media/picture.png
-	"media-image7",   // body picture stored as word/media/image7.png
-	"sparse-ids",     // relationship ids of the main part are sparse / not of the form rIdN
-	"tbl-nogrid",     // a table without w:tblGrid
-	"sectpr-in-para", // the section properties live in the last paragraph's w:pPr, no body-level w:sectPr
-	"empty-part",     // a zero-length part (word/embeddings/oleObject1.bin) with a relationship and a Default content type
-	"big-part",       // a 200 KiB incompressible binary part (word/attachedData.bin)
-	"zip-stored",     // every ZIP entry is stored, not deflated
-	"glossary",       // word/glossary/document.xml with its own relationships and styles part
-	"comments",       // word/comments.xml + comment range and reference around a run
-	"media-override", // body picture whose content type is given by an Override, not by a Default extension
-	"stylesWithEffects", // Word 2010 word/stylesWithEffects.xml, its relationship listed before all others
-	"shared-hdr-id",  // default and even header references that use the same relationship id (one header part for both)
+	"ns-default",         // main part uses the default namespace for elements (attributes keep a prefix)
+	"ns-x",               // main part uses the prefix x: instead of w:
+	"styles",             // word/styles.xml with its own style ids
+	"theme",              // word/theme/theme1.xml
+	"fontTable",          // word/fontTable.xml
+	"settings",           // word/settings.xml
+	"webSettings",        // word/webSettings.xml
+	"customXml",          // customXml/item1.xml + itemProps1.xml + customXml/_rels/item1.xml.rels
+	"numbering",          // word/numbering.xml (abstractNum 7 / num 3) + a list paragraph using num 3
+	"footnotes",          // word/footnotes.xml with footnote 2 + a reference in the body
+	"hdr-default",        // default header in word/header1.xml with its own .rels and media
+	"hdr-first",          // FIRST-page header stored in word/header1.xml (w:titlePg), no default header
+	"ftr-default",        // default footer in word/footer1.xml with its own .rels and media
+	"docProps",           // docProps/core.xml + docProps/app.xml with root relationships
+	"ext-hyperlink",      // TargetMode="External" hyperlink relationship + w:hyperlink with runs
+	"smartTag",           // runs inside w:smartTag
+	"ins",                // runs inside w:ins (tracked insertion)
+	"sdt-inline",         // runs inside w:sdt/w:sdtContent within a paragraph
+	"sdt-block",          // a paragraph inside a body-level w:sdt/w:sdtContent
+	"fldSimple",          // runs inside w:fldSimple
+	"run-multi-t",        // one run carrying w:t, w:tab, w:t
+	"media-IMAGE5",       // body picture stored as word/media/IMAGE5.PNG
+	"media-Image0",       // body picture stored as word/media/Image0.png
+	"media-picture",      // body picture stored as word/media/picture.png
+	"media-image7",       // body picture stored as word/media/image7.png
+	"sparse-ids",         // relationship ids of the main part are sparse / not of the form rIdN
+	"tbl-nogrid",         // a table without w:tblGrid
+	"sectpr-in-para",     // the section properties live in the last paragraph's w:pPr, no body-level w:sectPr
+	"empty-part",         // a zero-length part (word/embeddings/oleObject1.bin) with a relationship and a Default content type
+	"big-part",           // a 200 KiB incompressible binary part (word/attachedData.bin)
+	"zip-stored",         // every ZIP entry is stored, not deflated
+	"glossary",           // word/glossary/document.xml with its own relationships and styles part
+	"comments",           // word/comments.xml + comment range and reference around a run
+	"media-override",     // body picture whose content type is given by an Override, not by a Default extension
+	"stylesWithEffects",  // Word 2010 word/stylesWithEffects.xml, its relationship listed before all others
+	"shared-hdr-id",      // default and even header references that use the same relationship id (one header part for both)
+	"skip-nested-inline", // elements no reader models, each holding a descendant of the same name, inside w:rPr, w:r, w:pPr and w:p; text follows each
+	"skip-nested-block",  // the same at body, w:tbl, w:tr, w:tc, w:tcPr level, and a VML text box inside a text box; text follows each
 }
 
 // Conflict reports whether two features cannot be combined.
@@ -281,6 +283,31 @@ func Compose(feats []string) []byte {
 	}
 	if has["media-image7"] {
 		bodyPic("image7.png", 54)
+	}
+	if has["skip-nested-inline"] {
+		// an application-specific element (here w:object / w:ruby / a private one) that holds, further down, an
+		// element of the same name: whatever skips it must skip to the matching end tag, not to the first one
+		nest := func(n string) string {
+			return `<w:` + n + ` w:x="1"><w:inner><w:` + n + `><w:leaf/></w:` + n + `></w:inner><w:` + n + `/></w:` + n + `>`
+		}
+		body += `<w:p><w:pPr>` + nest("pPrChange") + `<w:jc w:val="center"/></w:pPr>` +
+			`<w:r><w:rPr>` + nest("rPrChange") + `<w:b/></w:rPr><w:t>[ski-rpr]</w:t></w:r>` +
+			`<w:r>` + nest("object") + `<w:t>[ski-run-same]</w:t></w:r>` + run("[ski-run-next]") +
+			nest("customXmlMoveFromRangeStart") + run("[ski-para]") + `</w:p><w:p>` + run("[ski-after]") + `</w:p>`
+	}
+	if has["skip-nested-block"] {
+		nest := func(n string) string {
+			return `<w:` + n + ` w:x="1"><w:inner><w:` + n + `><w:leaf/></w:` + n + `></w:inner><w:` + n + `/></w:` + n + `>`
+		}
+		cell := func(pre, t string) string {
+			return `<w:tc><w:tcPr>` + pre + `<w:tcW w:w="2000" w:type="dxa"/></w:tcPr>` + nest("altChunk") + `<w:p>` + run(t) + `</w:p></w:tc>`
+		}
+		body += nest("altChunk") + `<w:p>` + run("[skb-body]") + `</w:p>`
+		body += `<w:tbl><w:tblPr><w:tblW w:w="4000" w:type="dxa"/></w:tblPr>` + nest("tblPrEx") + `<w:tblGrid><w:gridCol w:w="2000"/><w:gridCol w:w="2000"/></w:tblGrid>` +
+			`<w:tr>` + nest("tblPrEx") + cell(nest("tcPrChange"), "[skb-c11]") + cell("", "[skb-c12]") + `</w:tr>` +
+			nest("bookmarkStartX") + `<w:tr>` + cell("", "[skb-c21]") + cell("", "[skb-c22]") + `</w:tr></w:tbl>`
+		// a text box holding a paragraph whose run holds another (empty) text box, then more runs
+		body += `<w:p>` + run("[skb-tb-before]") + `<w:r><w:pict><w:shapeX><w:textboxX><w:txbxContent><w:p><w:r><w:pict><w:shapeX/></w:pict></w:r></w:p></w:txbxContent></w:textboxX></w:shapeX></w:pict></w:r>` + run("[skb-tb-after]") + `</w:p><w:p>` + run("[skb-after]") + `</w:p>`
 	}
 	if has["tbl-nogrid"] {
 		cell := func(t string) string {
